@@ -18,7 +18,7 @@ RULE = ('Requester: a real client with honor_lease=True and request_queue_size i
         'order - the wire order of request frames equals the model\'s release order; every stream id carries at most one '
         'request frame. Granter: a real server with a lease publisher against a raw client that set the lease flag; the '
         'LEASE frames on its wire are, in order, exactly the published leases with number_of_requests == n and '
-        'time_to_live == round(ttl in ms). Reconnecting requester: the C17 reconnect histories with a lease-honouring client '
+        'time_to_live == round(ttl in ms), also when the publisher emits the same lease object again. Reconnecting requester: the C17 reconnect histories with a lease-honouring client '
         '(leases left over, used up, or requests waiting for one when the connection ends): on every connection no request '
         'frame leaves before that connection\'s own first LEASE arrived, and never more than it grants. Non-trivial = >= 2 leases of which one expired or was exhausted with requests '
         'still queued; distinct = timeline hash.')
@@ -193,7 +193,9 @@ def granter_cases(draw):
     leases = [(n, ms, us if ms < 0x7FFFFFFF else 0) for n, ms, us in leases]
     # several leases published in one go (grant then revoke, ...) must be announced in the order they were published
     return {'leases': [list(l) for l in leases], 'msg': draw(st.booleans()), 'burst': draw(st.booleans()),
-            'blocked': draw(st.booleans())}
+            'blocked': draw(st.booleans()),
+            # which publications re-emit the previous lease object instead of a new one
+            'again': [draw(st.sampled_from([False, False, True])) for _ in leases]}
 
 
 def judge_granter(case):
@@ -201,8 +203,12 @@ def judge_granter(case):
     ops = [['tick', 3], ['settle']]
     if case.get('burst') and case.get('blocked'):
         ops.append(['block', 's'])  # the granter's writer is not draining: the announcements pile up in its send queue
-    for n, ms, us in case['leases']:
-        ops.append(['lease', n, ms + us / 1000.0])
+    again = case.get('again') or []
+    for i, (n, ms, us) in enumerate(case['leases']):
+        if i and i < len(again) and again[i]:
+            ops.append(['lease', 'again'])  # the publisher emits the lease object it emitted last once more (a renewal)
+        else:
+            ops.append(['lease', n, ms + us / 1000.0])
         if not case.get('burst'):
             ops.append(['settle'])
             ops.append(['adv', 7])
@@ -213,7 +219,9 @@ def judge_granter(case):
     tr = run_program(prog)
     out = []
     got = [(f['count'], f['ttl']) for f in tr.scn.raw.frames if f['type'] == 'LEASE']
-    want = [(n, round(ms + us / 1000.0)) for n, ms, us in case['leases']]
+    want = []
+    for i, (n, ms, us) in enumerate(case['leases']):
+        want.append(want[-1] if (i and i < len(again) and again[i]) else (n, round(ms + us / 1000.0)))
     if got != want:
         out.append(viol('lease_frames_differ_from_published', 'C14:granter_frames', got=got[:8], want=want[:8]))
     errs = [f for f in tr.scn.raw.frames if f['type'] == 'ERROR']
